@@ -20,6 +20,7 @@ STR = ('str',)
 ANY = ('any',)
 CALLABLE = ('callable',)
 BKEY = ('bkey',)     # a byte string used only as (part of) a dictionary key: an injective integer code of it
+SKEY = ('skey',)     # a tuple of strings used only as a dictionary key: an injective integer code of it
 BITS = ('bits',)     # a non-negative python int used as a bit set: index -> bool
 
 
@@ -75,7 +76,7 @@ def tyname(ty):
         return 'raw_' + str(ty[1]).replace(' ', '').replace('(', '_').replace(')', '_').replace(',', '_')
     if k in ('int', 'bool', 'real', 'none', 'bytes', 'str', 'any', 'callable', 'bits'):
         return k
-    if k == 'bkey':
+    if k in ('bkey', 'skey'):
         return 'int'
     if k == 'ref':
         return 'ref'
@@ -96,7 +97,7 @@ def sort_of(ty):
     k = ty[0]
     if k == 'raw':
         return ty[1]
-    if k in ('int', 'enum', 'ref', 'dict', 'list', 'callable', 'bkey'):
+    if k in ('int', 'enum', 'ref', 'dict', 'list', 'callable', 'bkey', 'skey'):
         return I
     if k == 'bool':
         return Bo
@@ -135,6 +136,7 @@ def sort_of(ty):
 
 
 DEFS = {}
+BINDER_DEPTH = [0]     # > 0 while a quantifier body is being built: no named definitions there (they would capture bound variables)
 _BYTES_BY_KEY = {}
 INPUT_BYTES = {}     # id -> constant: symbolic input byte strings (their DEFS entry only states normal form)
 _OPAQUE = {}
@@ -313,6 +315,9 @@ class VBytes(Val):
 
     @property
     def t(self):
+        if self._term is None and BINDER_DEPTH[0] > 0:
+            i = z3.Int(fresh_name('bi'))
+            return BytesS.mkb(self.len, z3.Lambda([i], z3.If(z3.And(0 <= i, i < self.len), self._at(i), 0)))
         if self._term is None and self.key is not None and self.key in _BYTES_BY_KEY:
             self._term = _BYTES_BY_KEY[self.key]      # the same slice of the same string: the same named constant
         if self._term is None:
@@ -437,6 +442,10 @@ class VSeq(Val):
 
     @property
     def t(self):
+        if self._term is None and BINDER_DEPTH[0] > 0:
+            s = sort_of(self.ty)
+            i = z3.Int(fresh_name('si'))
+            return s.constructor(0)(self.len, z3.Lambda([i], to_term(self._at(i))))
         if self._term is None:
             s = sort_of(self.ty)
             i = z3.Int(fresh_name('si'))
@@ -500,6 +509,10 @@ def from_term(ty, t):
         return VBits(term=t)
     if k == 'bkey':
         return VBKey(t)
+    if k == 'skey':
+        r = VBKey(t)
+        r.ty = ('skey',)
+        return r
     if k == 'none':
         return VNone()
     if k == 'bytes':
@@ -556,6 +569,13 @@ def coerce(v, ty):
         return VOpt(ty[1], s.constructor(1)(to_term(inner)))
     if k == 'bkey' and isinstance(v, VBytes):
         return VBKey(bytes_id(v))
+    if k == 'skey' and isinstance(v, (VSeq, VTuple)):
+        sq = coerce(v, ('seq', STR))
+        r = VBKey(z3.Function('strseq_id', sort_of(('seq', STR)), I)(sq.t))
+        r.ty = ('skey',)
+        return r
+    if k == 'skey' and isinstance(v, VBKey):
+        return v
     if k == 'bits' and isinstance(v, VInt):
         sb = getattr(v, 'single_bit', None)
         if sb is not None:
